@@ -31,7 +31,7 @@ TRUSTED = [
 K3_TEXT = ("C20/K3 a TURN server that keeps answering 438 Stale Nonce (or 401 with a changing realm) is retried for ever: gathering "
            "completion is never announced while the server answers (agent/conncheck.c priv_map_reply_to_relay_request, no retry cap)")
 BEH_STUN = "dsSleEgx6"       # per-request behaviours for a STUN server
-BEH_TURN = "daeErgxmnuR"      # for a TURN server ('a' = 401 then signed success)
+BEH_TURN = "daeErgxmnuRV"     # for a TURN server ('a' = 401 then signed success, 'V' = the same with an IPv6 relayed address)
 
 
 def completion_oracles(ev, done_t, cands, servers, rc, rto):
@@ -97,11 +97,14 @@ def completion_oracles(ev, done_t, cands, servers, rc, rto):
                                                      f"t={a[0]} (before completion at t={done_t}) supplying {sorted(want)}, but no "
                                                      f"server-reflexive candidate with that address exists for component {comp}"))
         elif kind_of.get(r["dst"]) == "turn" and r["method"] == "3" and r["dst"] not in redirected:
-            if behs and all(b in "sSlR" and au == 1 for b, au, _, _ in behs):
+            if behs and all(b in "sSlRv" and au == 1 for b, au, _, _ in behs):
                 want = {r["dst"].split(":")[0] + ":"} if not any(b == "R" for b, _, _, _ in behs) else \
                        {r["dst"].split(":")[0] + ":", "192.0.2." + r["dst"].split(":")[0].split(".")[-1] + ":"}
                 if all(b == "R" for b, _, _, _ in behs):
                     want = {"192.0.2." + r["dst"].split(":")[0].split(".")[-1] + ":"}
+                if any(b == "v" for b, _, _, _ in behs):
+                    v6 = "2001:db8::%x:" % int(r["dst"].split(":")[0].split(".")[-1])
+                    want = (want if not all(b == "v" for b, _, _, _ in behs) else set()) | {v6}     # dual-stack relay: IPv6 relayed address
                 if not any(c[0] == 3 and c[1] == comp and any(c[2].startswith(w) for w in want) for c in cands):
                     bad.append(("missing-candidate", f"the TURN server granted the authenticated allocation {txid[:8]}.. from {r['src']} at "
                                                      f"t={a[0]} (before completion at t={done_t}) with relayed address in {sorted(want)}, "
@@ -123,6 +126,8 @@ DIRECTED = [
     (1, 1, "s", ["ra"], 0, 1),         # redirect to a silent alternate server
     (1, 1, None, ["uR"], 0, 1),        # TURN server on the NAT gateway: relayed and mapped address share the IP
     (1, 2, "s", ["uR"], 0, 5),
+    (1, 1, "s", ["V"], 0, 1),          # dual-stack relay: IPv4 mapped address, IPv6 relayed address (RFC 6156)
+    (1, 2, None, ["V", "a"], 0, 5),
 ]
 
 
@@ -132,6 +137,7 @@ def gather_model_lines(ev, done_t, cands, servers):
     expected output.  Items of a server that issued a 300 redirect and runs with packet duplication are skipped (a redirect
     moves all items of that server at once; the per-item model does not carry that)."""
     kind_of = {a: k for k, a, _ in servers}
+    script_of = {a: sc_ for _, a, sc_ in servers}
     items, order = {}, []
     answered, redirected = {}, set()
     for e in ev:
@@ -182,6 +188,9 @@ def gather_model_lines(ev, done_t, cands, servers):
         code = int(dst.split(":")[0].split(".")[-1]) + (1000 if kind_of[dst] == "turn" else 0)
         want_ip = ("127.0.0." if kind_of[dst] == "turn" else "192.0.2.") + dst.split(":")[0].split(".")[-1] + ":"
         got = any(c[1] == comp and c[0] == (3 if kind_of[dst] == "turn" else 1) and c[2].startswith(want_ip) for c in cands)
+        if kind_of[dst] == "turn" and "V" in script_of.get(dst, ""):
+            # (a dual-stack relay hands out 2001:db8::<its last octet>)
+            got = got or any(c[1] == comp and c[0] == 3 and c[2].startswith("2001:db8::%x:" % int(dst.split(":")[0].split(".")[-1])) for c in cands)
         lines.append((f"gather item - {' '.join(behs)}",
                       f"done 1 rounds {len(behs)} cands {code if got and behs[-1].startswith('s:') else '-'}",
                       f"item {src}->{dst}"))
@@ -338,7 +347,7 @@ def late_relay_scenario(args):
         if len(dones) != 1:
             bad.append(("never-done" if not dones else "done-twice",
                         f"gathering restarted by nice_agent_set_relay_info: completion announced {len(dones)} times within 8 s (script `{script}`)"))
-        granted = [e for e in reqs if "behaviour=a authed=1" in e]
+        granted = [e for e in reqs if "behaviour=s authed=1" in e]
         if granted and not relayed:
             bad.append(("missing-candidate", "the TURN server granted an allocation after the late set_relay_info but no relayed candidate was announced"))
         return dict(seed=seed, bad=bad, known=[], script=s.script, servers=[("turn", "127.0.0.60:3478", script)], ncands=1 + len(relayed),
@@ -442,6 +451,11 @@ def scenario(args):
         if len(hosts) != naddr * ncomp:
             bad.append(("host-candidates", f"{len(hosts)} host candidates for {naddr} addresses x {ncomp} components"))
         # addresses the servers really supplied in transaction-matched success answers
+        srv_ev_all = {}
+        for e in ev:
+            m = re.match(r"t=\d+ server \S+ req method=\d+ behaviour=(\S) authed=(\d) txid=(\w+)", e)
+            if m:
+                srv_ev_all.setdefault(m.group(3), []).append((m.group(1), int(m.group(2)), 0, 0))
         supplied = set()
         for e in ev:
             m = re.match(r"t=\d+ rx A (\S+)->(\S+) len=\d+ stun class=2 method=(\d+) .*txid=(\w+)", e)
@@ -453,10 +467,15 @@ def scenario(args):
                 supplied.add("[2001:db8::7]:4242"); supplied.add("2001:db8::7:4242")
                 supplied.add("relay:" + srv_ip)
                 supplied.add("relay:192.0.2." + last)          # behaviour R: relayed address on the mapped IP
+                if any(b == "v" for b, _, _, _ in srv_ev_all.get(m.group(4), [])):
+                    supplied.add("relay6:2001:db8::%x" % int(last))   # behaviour V: IPv6 relayed address
         for t, comp, addr, base in cands:
             if t == 1 and addr not in supplied and not addr.startswith("2001:db8::7"):
                 bad.append(("unconfirmed-candidate", f"server-reflexive candidate {addr} was supplied by no success answer"))
-            if t == 3 and "relay:" + addr.split(":")[0] not in supplied:
+            if t == 3 and addr.startswith("2001:db8::"):
+                if "relay6:" + addr.rsplit(":", 1)[0] not in supplied:
+                    bad.append(("unconfirmed-candidate", f"relayed candidate {addr} was supplied by no success answer"))
+            elif t == 3 and "relay:" + addr.split(":")[0] not in supplied:
                 bad.append(("unconfirmed-candidate", f"relayed candidate {addr} was supplied by no success answer"))
         if len(set(cands)) != len(cands):
             bad.append(("duplicate-candidate", str(cands)))
